@@ -44,11 +44,12 @@ pub trait Write {
 //@ include prelude/xorbidx_codec.rs
 
 impl CompressionScheme {
-    // compress_from_slice (lz4 / bg4+lz4 / identity): result is a function of (scheme, data) and -- ASSUMED -- the decoder inverts it
-    // (the real function returns Cow<[u8]>; serialize_chunk only takes `.len()`, `&x` and `chunk.into()` of that type)
+    // compress_from_slice (lz4 / bg4+lz4 / identity): result is a function of (scheme, data), the decoder inverts it, and a reader-based decoder
+    // consumes all of it (frame-exact).  These are, literally, the three postconditions U-CODEC PROVES for the real function (down to the lz4_flex /
+    // bg4 inverse laws).  (the real function returns Cow<[u8]>; serialize_chunk only takes `.len()`, `&x` and `chunk.into()` of that type)
     #[verifier::external_body]
     fn compress_from_slice(&self, data: &[u8]) -> (r: Result<Vec<u8>, CasObjectError>)
-        ensures r matches Ok(c) ==> c@ == compress_spec(*self, data@) && decode_spec(*self, c@) == data@
+        ensures r matches Ok(c) ==> c@ == compress_spec(*self, data@) && decode_spec(*self, c@) == data@ && consumed_spec(*self, c@) == c@.len()
     { unimplemented!() }
 }
 // R7 outline: `compression_scheme.unwrap_or_else(|| CompressionScheme::choose_from_data(chunk))` (closure)
@@ -147,6 +148,9 @@ proof fn lemma_appended(w0: Seq<u8>, h: CASChunkHeader, w1: Seq<u8>, wf: Seq<u8>
             &&& /*@C07*/ p.len() <= chunk@.len()
             // round trip: the header's scheme is a valid scheme and decoding the payload under THAT scheme gives back the chunk
             &&& /*@C07*/ scheme_of_byte(out[4]) matches Some(hs) && decode_spec(hs, p) == chunk@
+            // ... and the payload is frame-exact under that scheme (nothing behind what a reader-based decoder consumes): the condition under which
+            // the sync decoder stands behind the payload afterwards, like the async one (U-CHUNKDEC: frame_exact_at / lemma_sync_async_agree)
+            &&& /*@C07*/ scheme_of_byte(out[4]) matches Some(hs) && frame_exact(hs, p)
         }),
 //@ after `write_chunk_header(w, &header)?;`
     let ghost w1 = w.written();
